@@ -53,16 +53,30 @@ def family(prog, f):
 
 def preds(prog, f):
     out = []
-    for g in family(prog, f):
+    fam = family(prog, f)
+    scope = set(g.path for g in fam)
+
+    def desc(g, o):
+        d = describe(g, o)
+        if d == ("param",) and "p" in o and g.is_closure():
+            # a closure parameter (`.is_some_and(|e| e > epoch)`, `.filter(|(_, m)| ..)`): what the adaptor feeds it — the record field
+            # it was taken from, when that is a single named field
+            import analysis as A
+            og = A.origins(prog, g, o["p"][0], scope=scope, max_frames=3)
+            flds = set(x for x in og.fields if not x.isdigit() and not x.endswith("_cache") and x not in ("inner",))
+            if len(flds) == 1:
+                return ("field", sorted(flds)[0])
+        return d
+    for g in fam:
         for bb, s in g.stmts():
             if s.get("k") == "binop" and s["op"] in ("Gt", "Lt", "Ge", "Le", "Eq", "Ne"):
                 a, b = s["o"]
-                out.append((describe(g, a), s["op"], describe(g, b)))
+                out.append((desc(g, a), s["op"], desc(g, b)))
         for c in g.live_calls():
             if c.name in ("eq", "ne") and last_seg(c.trait) == "PartialEq" and not c.expn:
-                out.append((describe(g, c.args[0]), c.name, describe(g, c.args[1])))
+                out.append((desc(g, c.args[0]), c.name, desc(g, c.args[1])))
             if c.name in ("is_none", "is_some") and last_seg(c.self_adt) == "Option":
-                out.append((describe(g, c.args[0]), c.name, None))
+                out.append((desc(g, c.args[0]), c.name, None))
     return out
 
 
